@@ -18,9 +18,25 @@ def run(tier, seed):
             raise vlib.Infra(f"ideal model violates {mc.violated}\n{mc.out[-2000:]}")
         states += mc.distinct
         trans += mc.generated
+    # the limiter's Write / Read loop and token bucket
+    cfg = (vlib.SPEC / "MC_Limiter.cfg").read_text()
+    if tier == "thorough":
+        cfg = cfg.replace("MaxLen = 7", "MaxLen = 8").replace("MaxTime = 5", "MaxTime = 6")
+    mc = vlib.tlc("Limiter", cfg, workers=8, timeout=1800)
+    if not mc.ok:
+        raise vlib.Infra(f"ideal limiter model violates {mc.violated}\n{mc.out[-2000:]}")
+    states += mc.distinct
+    trans += mc.generated
+    dev = vlib.tlc("Limiter", "MC_Limiter_dev.cfg", workers=4, timeout=600)
+    if dev.ok or dev.violated != "ReturnsAll":
+        raise vlib.Infra("the deviation ReturnLastChunk is not caught by ReturnsAll: the invariant is vacuous")
     v.add_cov(states=states, transitions=trans, exhaustive=True)
     d = vlib.scratch("c01-")
     stats = {}
+    lf = d / "limiter.ndjson"
+    p = vlib.run_driver(drv, ["limiter", "-seed", seed, "-timed", 2 if tier == "quick" else 6, "-out", lf], timeout=600)
+    sc.parse_stats(p.stdout, stats)
+    sc.validate(v, "Trace_Limiter", (vlib.SPEC / "Trace_Limiter.cfg").read_text(), lf, "limiter")
     tf = d / "tunnel.ndjson"
     n, conns = (16, 6) if tier == "quick" else (96, 8)
     p = vlib.run_driver(drv, ["tunnel", "-seed", seed, "-n", n, "-conns", conns, "-par", 8, "-out", tf], timeout=3000)
@@ -39,7 +55,8 @@ def run(tier, seed):
                    "limit side x mux x transport x tls x pool x proxy-protocol x shared vhost port, two proxies with distinct backends, self-describing generator streams in both directions "
                    "(sizes 0..3 MiB, random / zero / text content, write chunks 1 B..64 KiB) and one of four close patterns; non-trivial = connections that moved at least one byte",
               driver_stats=stats)
-    v.assumptions += ["content is checked by regenerating each stream from the header the reader received (kind, stream id, nonce); counters and closure are judged by TLC on the Tunnel specification",
+    v.assumptions += ["function level: the real limit.Writer / limit.Reader are called on the grid burst 1..6 x length 0..20, on realistic sizes around the burst and in timed runs through a real token bucket (Trace_Limiter)",
+                      "content is checked by regenerating each stream from the header the reader received (kind, stream id, nonce); counters and closure are judged by TLC on the Tunnel specification",
                       "completeness at close is demanded for tcp / websocket / quic control transports; kcp-go drops unsent data on Close and is only required to keep prefix integrity and to propagate the close",
                       "bounded time = 8 s for the propagation of a close, 25 s for the delivery of a stream; rate bound checked on 100 ms samples with a slack of 300 ms x rate + 128 KiB for reader-side buffering",
                       "xtcp hole punching itself needs a STUN server and is not driven: the xtcp visitor's hand-over of the user connection to its fall-back stcp visitor is"]
